@@ -1,7 +1,7 @@
 """Contracts for precis-tools generators (C15): the in-memory algorithms between parsed rows and the
 vector handed to the file writer."""
 import os
-from vlib.extract import Fn, Impl, Verbatim, Text, Module, Loop
+from vlib.extract import Fn, Impl, Verbatim, Text, Module, Loop, StructFields
 
 HERE = os.path.dirname(__file__)
 
@@ -103,4 +103,72 @@ proof { assert(**cp as int == vals[k]); assert(forall|i: int| 0 <= i < k ==> val
 }''',
            )}),
     ], header='use super::*;\nuse crate::spec::*;\nuse crate::ucd_parse::Codepoints::{Range, Single};\nuse crate::ucd_parse::{Codepoint, CodepointRange, Codepoints, vx_sorted_refs};\n')
-    return [model, spec, common]
+    parsers = Module('ucd_parsers', 'precis-tools/src/ucd_parsers.rs', [
+        StructFields(r'pub\s+struct\s+UnicodeData\b', keep=['codepoints', 'canonical_combining_class']),
+    ], header='use super::*;\nuse crate::ucd_parse;\n')
+    NEXT = 'self.range.start.v()'
+    unassigned = Impl(
+        r'impl\s+UcdLineParser<ucd_parsers::UnicodeData>\s+for\s+UnassignedTableGen\b', header='impl UnassignedTableGen',
+        extra='''
+    // all code points below `next` are either covered by a processed row or by an entry of the table
+    pub closed spec fn next(&self) -> int { self.range.start.v() as int }
+    pub closed spec fn inv(&self) -> bool {
+        &&& searchable(self.vec@)
+        &&& self.range.end.v() <= self.range.start.v()
+        &&& forall|i: int| 0 <= i < self.vec@.len() ==> hi(#[trigger] self.vec@[i]) < self.next()
+    }
+''',
+        fns=[Fn('process_entry', ret='res',
+                requires=[('REQ.unassigned_inv', 'old(self).inv()'),
+                          ('REQ.row_ascending', 'old(self).next() <= lo(udata.codepoints) <= hi(udata.codepoints) <= 0x10FFFF')],
+                ensures=[
+                    ('C15.unassigned_inv', 'res is Ok ==> final(self).inv() && final(self).next() == hi(udata.codepoints) + 1'),
+                    ('C15.unassigned_gap', 'res is Ok ==> forall|x: int| covered(final(self).vec@, x) <==> (covered(old(self).vec@, x) || old(self).next() <= x < lo(udata.codepoints))'),
+                    ('C15.unassigned_err', 'res is Err ==> hi(udata.codepoints) == 0x10FFFF'),
+                ],
+                head='let ghost vec0 = self.vec@;\nlet ghost next0 = self.next();',
+                inserts=[(r'Ok\(\(\)\)', 1, 'before', '''proof {
+    if self.vec@ != vec0 {
+        let e = self.vec@.last();
+        assert(self.vec@ =~= vec0.push(e));
+        assert forall|x: int| covered(self.vec@, x) <==> (covered(vec0, x) || covers(e, x)) by { lemma_covered_push(vec0, e, x); }
+    }
+}''')],
+                )])
+    gen = Module('ucd_generator', 'precis-tools/src/generators/ucd_generator.rs', [
+        Verbatim(r'pub\s+struct\s+UnassignedTableGen\b'),
+        unassigned,
+    ], header='use super::*;\nuse crate::spec::*;\nuse crate::common;\nuse crate::ucd_parse;\nuse crate::ucd_parsers;\nuse crate::ucd_parse::Codepoints;\nuse crate::error::Error;\n')
+    err = Module('error', None, [Text('''
+// MODEL of precis_tools::Error (message/line/path record built with format!): only its existence matters here
+#[derive(Debug)]
+pub struct Error {}
+impl From<crate::ucd_parse::Error> for Error {
+    #[verifier::external_body]
+    fn from(error: crate::ucd_parse::Error) -> Self { unimplemented!() }
+}
+''')], header='use super::*;\n')
+    bidi = Module('bidi_class', 'precis-tools/src/generators/bidi_class.rs', [
+        Verbatim(r'pub\s+struct\s+BidiClassGen\b'),
+        Fn('add_range', ensures=[('C15.bidi_add_range', 'exists|p: (Codepoints, String)| final(vec)@ == old(vec)@.push(p) && p.1@ == bidi@ && lo(p.0) == range.start.v() && hi(p.0) == range.end.v()')]),
+        Impl(r'impl\s+BidiClassGen\s*(?=\{\s*fn\s+generate_bidi_class_table)', header='impl BidiClassGen', fns=[
+            Fn('compress_into_ranges', no_w=True,
+               requires=[('REQ.rows_ascending', 'well_formed(keys(old(self).vec@))')],
+               ensures=[
+                   ('C15.bidi_searchable', 'well_formed(keys(final(self).vec@))'),
+                   ('C15.bidi_denotes', 'forall|x: int, s: Seq<char>| assoc(final(self).vec@, x, s) <==> assoc(old(self).vec@, x, s)'),
+               ],
+               head='let ghost rows = self.vec@;',
+               loops={1: Loop(ghost='it', invariants=[
+                   ('C15.bidi_seq', 'it.seq().len() == rows.len() && (forall|i: int| 0 <= i < rows.len() ==> *#[trigger] it.seq()[i] == rows[i]) && rows == self.vec@ && well_formed(keys(rows))'),
+                   ('C15.bidi_out_wf', 'well_formed(keys(out@))'),
+                   ('C15.bidi_start', 'it.index@ == 0 ==> (val is None && range is None && out@.len() == 0)'),
+                   ('C15.bidi_val', 'it.index@ > 0 ==> (val is Some && val->Some_0@ == rows[it.index@ - 1].1@)'),
+                   ('C15.bidi_below', 'it.index@ > 0 ==> all_below(out@, hi(rows[it.index@ - 1].0) + 1)'),
+                   ('C15.bidi_pending', 'range matches Some(r) ==> it.index@ > 0 && r.start.v() <= r.end.v() && r.end.v() as int == hi(rows[it.index@ - 1].0) && all_below(out@, r.start.v() as int)'),
+                   ('C15.bidi_denotes_inv', 'forall|x: int, s: Seq<char>| (assoc(out@, x, s) || (range matches Some(r) && r.start.v() <= x <= r.end.v() && val is Some && val->Some_0@ == s)) <==> (exists|j: int| 0 <= j < it.index@ && covers(#[trigger] rows[j].0, x) && rows[j].1@ == s)'),
+               ], head='let ghost k = it.index@;\nlet ghost out0 = out@;\nlet ghost range0 = range;\nlet ghost val0 = val;',
+               )}),
+        ]),
+    ], header='use super::*;\nuse crate::spec::*;\nuse crate::ucd_parse::{CodepointRange, Codepoints};\n')
+    return [model, spec, err, common, parsers, gen, bidi]
